@@ -185,6 +185,9 @@ func runProperty(p *Property, opts *Options, replay bool) int {
 		if replay {
 			v.Replay = replayViolation(L, p, spec, v, dir)
 			replays++
+			if why, ok := spec.ModelOnlyLabels[v.Label]; ok && strings.HasPrefix(v.Replay, "not-reproduced") {
+				v.Replay = "model-only (" + why + "; native run: " + v.Replay + ")"
+			}
 		} else {
 			v.Replay = "skipped"
 		}
